@@ -1,12 +1,12 @@
 //! C07 evaluated directly on the real editor: an open candidate list is complete and consistently
 //! paged, choosing item i places exactly item i, an out-of-range index changes nothing.
 //!
-//! Finding class (KNOWN_FINDINGS.txt):
-//! * `F32-stale-page`  the list is recomputed on every query but the page number is only touched by
-//!   keys: an option / layout / dictionary call while the list is open (or a page number inherited from
-//!   such a state) leaves the current page ≥ the page count, or an open list with no candidates.
-//! Everything else is reported as `new` (the former class `F40-first-after-single-word` was repaired in
-//! the code - `fix: init_single_word remembers the position of the word` - and is `new` again).
+//! No known finding class is left: everything is reported as `new`.  The former classes were repaired in
+//! the code and are `new` again: `F40-first-after-single-word` (`fix: init_single_word remembers the
+//! position of the word`) and `F32-stale-page` (`fix: an option, layout or dictionary call keeps an open
+//! candidate list consistently paged`: the list is recomputed on every query but the page number was only
+//! touched by keys, so an option / layout / dictionary call while the list is open left the current page
+//! >= the page count, or an open list with no candidates).
 use crate::step::*;
 use chewing::editor::keyboard::KeyCode;
 use std::cell::RefCell;
@@ -39,6 +39,9 @@ struct Stats {
     choices_overflow: u64,
     empty_lists: u64,
     stale_page: u64,
+    reconfigured_open: u64,
+    reconfigured_clamped: u64,
+    reconfigured_closed: u64,
     getter_panics: u64,
     choice_panics: u64,
     samples: u64,
@@ -60,14 +63,10 @@ fn fail(out: &mut Out, class: &str, what: &str, st: &Step) {
     out.oracle_fail("C07", class, &format!("{}: {}", what, st.hist()));
 }
 
-/// the operation is one of those that never touch `page_no` although they may change the list
+/// the operation is an option / layout / dictionary call (they end with `revalidate_selecting`)
 fn is_config_or_dict_op(st: &Step) -> bool {
     let w = st.op.split(' ').next().unwrap_or("");
-    matches!(w, "setopts" | "setlayout" | "setengine" | "learn" | "unlearn" | "ack" | "clearsyl")
-}
-
-fn view_ok(v: &CandView) -> bool {
-    !v.panicked && !v.all.is_empty() && v.page_no < v.total_page
+    matches!(w, "setopts" | "setlayout" | "setengine" | "learn" | "unlearn")
 }
 
 /// index chosen by this operation on the current page, if it is a choice
@@ -115,6 +114,14 @@ pub fn check(out: &mut Out, st: &Step) {
     let pre_sel = sel_info(st.pre);
     let post_sel = sel_info(st.post);
 
+    // a list that an option / layout / dictionary call found empty is closed (F32 repair)
+    if pre_sel.is_some() && post_sel.is_none() && is_config_or_dict_op(st) {
+        STATS.with(|s| s.borrow_mut().reconfigured_closed += 1);
+        // closing restores the cursor saved when the list was opened, like cancel_selecting
+        if sections(st.post)[0] != "E" || stack_len(st.post) + 1 != stack_len(st.pre).max(1) {
+            fail(out, "new", &format!("an option / layout / dictionary call closed the list but left state {} with {} -> {} saved cursors", sections(st.post)[0], stack_len(st.pre), stack_len(st.post)), st);
+        }
+    }
     // ---------------------------------------------------------------- A. an open list is consistent
     if let (Some(info), Some(v)) = (&post_sel, st.cand_post) {
         check_view(out, st, info, v, &pre_sel);
@@ -214,16 +221,18 @@ fn check_view(out: &mut Out, st: &Step, info: &SelInfo, v: &CandView, pre_sel: &
     if v.paginated[..] != v.all[from..] {
         fail(out, "new", &format!("paginated_candidates() on page {} (per {}) = {:?}, all_candidates()[{}..] = {:?}", v.page_no, v.per, v.paginated, from, &v.all[from..]), st);
     }
-    // the current page is below the page count (an open list has at least one candidate)
-    // inherited: the list was already stale before, and this operation neither moved to another list nor
-    // to a later page (Left / PageUp step down one page at a time; a failed jump changes nothing)
-    let inherited = pre_sel.as_ref().is_some_and(|p| sel_target(p) == sel_target(info) && info.page <= p.page)
-        && st.cand_pre.is_some_and(|p| !view_ok(p));
-    let stale_class = if is_config_or_dict_op(st) || inherited {
-        "F32-stale-page"
-    } else {
-        "new"
-    };
+    // the current page is below the page count (an open list has at least one candidate) - also right
+    // after an option / layout / dictionary call made while the list is open (F32, repaired)
+    let stale_class = "new";
+    if is_config_or_dict_op(st) && pre_sel.is_some() {
+        STATS.with(|s| {
+            let mut s = s.borrow_mut();
+            s.reconfigured_open += 1;
+            if st.cand_pre.is_some_and(|p| !p.panicked && p.per > 0 && p.page_no != v.page_no) {
+                s.reconfigured_clamped += 1;
+            }
+        });
+    }
     if n == 0 {
         STATS.with(|s| s.borrow_mut().empty_lists += 1);
         fail(out, stale_class, &format!("candidate list of kind {} is open with 0 candidates ({} pages, page {})", info.kind, v.total_page, v.page_no), st);
@@ -431,6 +440,9 @@ pub fn finish(out: &mut Out) {
         out.stat("c07_choices_index_overflow", s.choices_overflow);
         out.stat("c07_empty_open_lists", s.empty_lists);
         out.stat("c07_stale_pages", s.stale_page);
+        out.stat("c07_config_calls_list_stays_open", s.reconfigured_open);
+        out.stat("c07_config_calls_page_clamped", s.reconfigured_clamped);
+        out.stat("c07_config_calls_empty_list_closed", s.reconfigured_closed);
         out.stat("c07_getter_panics", s.getter_panics);
         out.stat("c07_choice_panics", s.choice_panics);
     });
